@@ -17,6 +17,10 @@ use crate::ops::*;
 use crate::runner::*;
 use crate::{Ctx, Finish};
 
+/// Preemption/freeze positions are enumerated up to this step (catalogue programs take
+/// 30-150 steps; an execution that runs into the step limit must not be extended 800000-fold).
+const ENUM_STEP_CAP: u64 = 1500;
+
 pub struct ConcSpec {
     pub prop: &'static str,
     pub own_tags: &'static [&'static str],
@@ -482,7 +486,7 @@ fn run_catalogue(spec: &ConcSpec, sh: &Shared, k: usize, ev: &mut Evidence) -> O
             };
             let out = run_conc(&case, &ConcOpts::default());
             items.push((ti, base.clone(), None));
-            for p in 1..=out.steps as u32 {
+            for p in 1..=out.steps.min(ENUM_STEP_CAP) as u32 {
                 for to in 0..(n as u8 - 1) {
                     items.push((ti, base.clone(), Some((p, to))));
                 }
@@ -538,8 +542,8 @@ fn run_catalogue(spec: &ConcSpec, sh: &Shared, k: usize, ev: &mut Evidence) -> O
                             if spec.freeze {
                                 // freeze mode: every freeze point x every thread under this schedule
                                 let out0 = run_conc(&case, &ConcOpts::default());
-                                steps = out0.steps;
-                                for p in 1..=out0.steps as u32 {
+                                steps = out0.steps.min(ENUM_STEP_CAP);
+                                for p in 1..=steps as u32 {
                                     for th in 0..n {
                                         case.freeze = Some((p, th));
                                         let v = judge(spec, sh, &case);
@@ -557,7 +561,7 @@ fn run_catalogue(spec: &ConcSpec, sh: &Shared, k: usize, ev: &mut Evidence) -> O
                                 }
                             } else {
                                 let out = run_conc(&case, &spec.opts);
-                                steps = out.steps;
+                                steps = out.steps.min(ENUM_STEP_CAP);
                                 sh.crash_checked.fetch_add(out.crash_checked, Ordering::Relaxed);
                                 sh.crash_skipped.fetch_add(out.crash_skipped, Ordering::Relaxed);
                                 if !out.crash_nontrivial.is_empty() {
